@@ -147,6 +147,9 @@ pub struct TrajCase {
     pub ca: f64,
     #[serde(with = "fl::one")]
     pub cb: f64,
+    /// a complex-valued problem checked along with the real one (1 of 8 cases; see props/cplx.rs)
+    #[serde(default)]
+    pub cplx: Option<super::cplx::CplxCase>,
 }
 
 pub fn traj_strategy(cfg: crate::gen::CaseCfg, max_updates: usize, lm_16: u16) -> impl Strategy<Value = TrajCase> {
@@ -158,11 +161,13 @@ pub fn traj_strategy(cfg: crate::gen::CaseCfg, max_updates: usize, lm_16: u16) -
         proptest::collection::vec(-5.0f64..5.0, 5 * 40),
         -3.0f64..3.0,
         -3.0f64..3.0,
+        proptest::collection::vec(any::<u16>(), 96),
     )
-        .prop_map(move |(base, raws, lm, lmsel, ys2, ca, cb)| {
+        .prop_map(move |(base, raws, lm, lmsel, ys2, ca, cb, cus)| {
             let updates = crate::gen::alpha_list(&base.spec, &raws);
             let n = base.n();
             let y2 = (0..base.s()).map(|c| (0..n).map(|i| ys2[(c * 40 + i) % ys2.len()]).collect()).collect();
-            TrajCase { base, updates, lm: if crate::engine::pick(lmsel, 16) < lm_16 as usize { Some(lm) } else { None }, y2, ca, cb }
+            let cplx = if cus[95] % 8 == 0 { Some(super::cplx::cplx_from_raw(&cus)) } else { None };
+            TrajCase { base, updates, lm: if crate::engine::pick(lmsel, 16) < lm_16 as usize { Some(lm) } else { None }, y2, ca, cb, cplx }
         })
 }
